@@ -1,3 +1,128 @@
-"""placeholder; replaced below"""
-def run_for(prop, root):
-    return {"summary": {"mutants": 0, "fired": 0, "twins": 0, "silent": 0}, "failures": []}
+"""Checker self-test (thorough tier): every rule is run against scratch variants of the one or
+two files it reads -- a *mutant* (one instance broken by an edit that still parses) on which the
+named rule must fire, and *benign twins* (behaviour-preserving edits) on which no rule may fire.
+
+Cases live next to the rules: each rules module may define
+    SELFTEST = [ {"name":..., "file": rel, "old": text, "new": text, "expect": "Cxx.Rn" | None,
+                  "count": 1 (optional, occurrences replaced)} , ... ]
+`old` is matched against the *current* tree; a case whose `old` no longer occurs is reported as
+stale (skipped) -- the tree moved on -- and does not fail the run, but at least half of the
+mutants of a property must still apply.  Scratch copies live in a tempfile.mkdtemp() directory
+and are removed afterwards.
+"""
+from __future__ import annotations
+
+import ast
+import importlib
+import os
+import shutil
+import tempfile
+
+from . import core
+
+
+def _apply(src: str, case: dict):
+    old, new = case["old"], case["new"]
+    n = src.count(old)
+    if n == 0:
+        return None
+    want = case.get("count", 1)
+    if want == "all":
+        return src.replace(old, new)
+    if n < want:
+        return None
+    if case.get("nth") is not None:
+        # replace only the nth (0-based) occurrence
+        idx = -1
+        for _ in range(case["nth"] + 1):
+            idx = src.find(old, idx + 1)
+            if idx < 0:
+                return None
+        return src[:idx] + new + src[idx + len(old):]
+    if n != want and not case.get("first"):
+        return None  # ambiguous: refuse rather than edit the wrong place
+    return src.replace(old, new, want)
+
+
+def run_case(prop: str, root: str, case: dict, known) -> tuple[str, str]:
+    """Returns (outcome, message); outcome in ok / stale / FAIL."""
+    from .run import analyse
+
+    edits = case.get("edits") or [case]
+    tmp = tempfile.mkdtemp(prefix="sa_selftest_")
+    try:
+        for e in edits:
+            rel = e["file"]
+            p = os.path.join(root, rel)
+            if not os.path.exists(p):
+                return "stale", f"{case['name']}: {rel} missing"
+            with open(p, encoding="utf-8") as f:
+                src = f.read()
+            out = _apply(src, e)
+            if out is None:
+                return "stale", f"{case['name']}: anchor text not found (tree changed)"
+            if rel.endswith(".py"):
+                try:
+                    ast.parse(out)
+                except SyntaxError as ex:
+                    return "FAIL", f"{case['name']}: mutant does not parse: {ex}"
+            dst = os.path.join(tmp, rel)
+            os.makedirs(os.path.dirname(dst), exist_ok=True)
+            with open(dst, "w", encoding="utf-8") as f:
+                f.write(out)
+        try:
+            ctx, _per, _mod = analyse(prop, "quick", root, overlay=tmp, known=known)
+        except core.AnalysisError as ex:
+            if case.get("expect") == "ANALYSIS-ERROR":
+                return "ok", f"{case['name']}: analysis error as expected"
+            return "FAIL", f"{case['name']}: analysis error on variant: {ex}"
+        violated = [o for o in ctx.obligations if o.status == "violated"]
+        exp = case.get("expect")
+        if exp is None:
+            if violated:
+                return "FAIL", f"{case['name']}: benign twin raised {violated[0].rule}: {violated[0].detail}"
+            return "ok", f"{case['name']}: silent"
+        hits = [o for o in violated if o.rule == exp]
+        if not hits:
+            return "FAIL", f"{case['name']}: expected {exp} to fire; fired: {sorted({o.rule for o in violated}) or 'nothing'}"
+        return "ok", f"{case['name']}: {exp} fired at {hits[0].file}:{hits[0].line}"
+    finally:
+        shutil.rmtree(tmp, ignore_errors=True)
+
+
+def run_for(prop: str, root: str) -> dict:
+    mod = importlib.import_module(f"sa.rules.{prop}")
+    cases = list(getattr(mod, "SELFTEST", []))
+    known = core.load_known()
+    res = {"mutants": 0, "fired": 0, "twins": 0, "silent": 0, "stale": 0, "cases": []}
+    failures = []
+    for c in cases:
+        outcome, msg = run_case(prop, root, c, known)
+        res["cases"].append(f"{outcome}: {msg}")
+        is_mut = c.get("expect") is not None
+        if outcome == "stale":
+            res["stale"] += 1
+            continue
+        if is_mut:
+            res["mutants"] += 1
+            res["fired"] += outcome == "ok"
+        else:
+            res["twins"] += 1
+            res["silent"] += outcome == "ok"
+        if outcome == "FAIL":
+            failures.append(msg)
+    nm = sum(1 for c in cases if c.get("expect") is not None)
+    if nm and res["mutants"] * 2 < nm:
+        failures.append(f"{prop}: only {res['mutants']} of {nm} self-test mutants still apply to the tree")
+    return {"summary": res, "failures": failures}
+
+
+if __name__ == "__main__":
+    import sys
+
+    prop = sys.argv[1]
+    out = run_for(prop, core.DEFAULT_REPO)
+    for c in out["summary"]["cases"]:
+        print(c)
+    print({k: v for k, v in out["summary"].items() if k != "cases"})
+    sys.exit(1 if out["failures"] else 0)
